@@ -140,6 +140,11 @@ func Login() error {
 	cgf.connMutex.Lock()
 	defer cgf.connMutex.Unlock()
 
+	return login()
+}
+
+// login (re)establishes the FTP connection; the caller holds connMutex
+func login() error {
 	if cgf.conn != nil {
 		ping_err := cgf.conn.NoOp()
 		if ping_err == nil {
@@ -174,8 +179,12 @@ func SendCDR(supi string) error {
 		return nil
 	}
 
+	// the connection is shared by all requests: it is only looked at and used with connMutex held
+	cgf.connMutex.Lock()
+	defer cgf.connMutex.Unlock()
+
 	if cgf.conn == nil {
-		err := Login()
+		err := login()
 		if err != nil {
 			return err
 		}
@@ -185,14 +194,12 @@ func SendCDR(supi string) error {
 	ping_err := cgf.conn.NoOp()
 	if ping_err != nil {
 		logger.CgfLog.Infof("Faile to ping FTP server, relogin...")
-		err := Login()
+		err := login()
 		if err != nil {
 			return err
 		}
 		logger.CgfLog.Infof("FTP Re-Login Success")
 	}
-	cgf.connMutex.Lock()
-	defer cgf.connMutex.Unlock()
 
 	fileName := supi + ".cdr"
 	cdrByte, err := os.ReadFile("/tmp/" + fileName)
